@@ -121,7 +121,7 @@ R7 = {
  "C15": "Names with characters whose case mappings change the encoded length and asset links without a host against address-host statement URLs are generated and fixed. Growth families with line breaks / padding characters / blanks after a short base64 value.",
  "C16": "Payloads that carry another channel's id (every command x offset x byte order while that channel has a message in progress) and merges that start while 1..1000 other channels hold unfinished transmissions. A transport that fails one write call (success reported => complete stream handed over), and one transmission with a real pause of 3.6 s (12 s thorough) between packets.",
  "C17": "Constant-byte application parameters: each of the 256 values once, and in a fifth of the histories. Unknown handles that are rearrangements of a registered one; a reference store that does not persist counters.",
- "C18": "A third of the cases run on authenticators that answered 1-4 earlier uv requests (declined / timed out / consented), one side through the direct methods, the other through the trait; the earlier results are compared too. A sixth of the cases start after a cancelled request on each side; held user handles of up to 1.3 kB.",
+ "C18": "A third of the cases run on authenticators that answered 1-4 earlier uv requests (declined / timed out / consented), one side through the direct methods, the other through the trait; the earlier results are compared too. A sixth of the cases start after a cancelled request on each side; held user handles of up to 1.3 kB. The first 1024 cases of every run enumerate every status byte as the user-validation error and as the status of a failing first store call.",
  "C19": "In every schedule the counters handed to the shared store equal the counters that reach the store behind the wrapper, and an answered assertion reports the value it asked the store to hold. Declined assertions (must not write to the shared store) and allow lists naming both held credentials.",
 }
 
